@@ -348,6 +348,12 @@ func RunCheck(p *Program, cfg *CheckConfig, seed int) int {
 			total-- // not part of what this run proves: reported separately as known_findings_hit
 			continue
 		}
+		if f.Res.Status == "error" {
+			// the solvers rejected the query (ill-formed SMT): a defect of the encoding, never a verdict on the code
+			engineErrors = append(engineErrors, fmt.Sprintf("solver error on %s: %s", f.Obl.Name, truncate(firstLine(f.Res.Output), 300)))
+			total--
+			continue
+		}
 		violations++
 		path := p.writeReplay(replayDir, cfg, f)
 		suffix := ""
